@@ -53,8 +53,10 @@
 (*  isolation: requests on one module instance never touch another instance (same class or the   *)
 (*  base class).                                                                                  *)
 (*                                                                                                *)
-(* Deviations of the pinned code are switches (Impl); with Impl = {} this module is the intended  *)
-(* design.  They are used by Trace_RWHandler (named deviations recorded in `devs`) and by the     *)
+(* Deviations of the code are switches (Impl); with Impl = {} this module is the intended design. *)
+(* MaskErr, WriteNone, ReadKeyNoParam describe the code BEFORE the repairs b52e15f, 0678858,      *)
+(* 7127502 (an execution that needs one of them is a violation now); RegistryLeak is still true   *)
+(* of the code (open finding).  They are used by Trace_RWHandler (named deviations recorded in `devs`) and by the     *)
 (* MC_RWHandler_asimpl_*.cfg configurations, which must violate FreshRead / CleanWrite /          *)
 (* AcceptedSound / VerdictStable; MC_RWHandler_broken_*.cfg switch on faults the code does not   *)
 (* have (Breakers) and must violate PollOncePerGroup / FlagsOK (no vacuity).                     *)
@@ -63,10 +65,10 @@ EXTENDS Naturals, Sequences, FiniteSets, TLC
 CONSTANTS Layouts,       \* the layouts a behaviour may start from (records with the fields of NoLay below)
           Impl           \* subset of AllDevs: deviations of the implementation that are switched on
 
-AllDevs == {"MaskErr",        \* CR: a refused value of the requested key is answered with the stale value, readerror wiped
-            "ReadKeyNoParam", \* R / CR keys that are no parameter are accepted silently
-            "WriteNone",      \* W: fn returning None announces a WrongType error before the value
-            "RegistryLeak"}   \* a refused class definition leaves function names in the global registry
+AllDevs == {"MaskErr",        \* (repaired b52e15f) CR: a refused value of the requested key is answered with the stale value, readerror wiped
+            "ReadKeyNoParam", \* (repaired 7127502) R / CR keys that are no parameter are accepted silently
+            "WriteNone",      \* (repaired 0678858) W: fn returning None announces a WrongType error before the value
+            "RegistryLeak"}   \* (open) a refused class definition leaves function names in the global registry
 (* switches that BREAK the design (never true of the code): the properties must notice them *)
 Breakers == {"X_PollAll",     \* every key of a CR group is polled
              "X_NoFreshSkip"} \* a slow round polls a parameter although it was refreshed earlier in the round
